@@ -42,7 +42,7 @@ THEOREMS = [
     "Typedpy.C16.stubD_kw_iff",
     "Typedpy.C16.stubD_sigkw_agree", "Typedpy.C16.stubD_sigkw_is_define",
     "Typedpy.C16.stubD_mandatory_first",
-    "Typedpy.C16.stubD_init_text_parses",
+    "Typedpy.C16.stubD_init_text_parses", "Typedpy.C16.stubD_helper_text_parses", "Typedpy.C16.stubD_init_text_accepted",
     "Typedpy.C16.stubD_diamond_example",
     "Typedpy.C16.diamond_names_counterexample",
 ]
